@@ -11,7 +11,8 @@ PID = "C17"
 LEVEL = "exploration"
 RULE = ("every ordered sequence of <=3 (thorough 4) plugins from a menu of 9 plugin instances (bearer, API key in header / header named Authorization / query / "
         "cookie, extra headers disjoint / case-variant overlapping, OAuth2 without / with refresh), used directly (length 1) and wrapped in CompositeAuth, "
-        "x transport defaults {none, X-A, x-a} x per-request headers {none, X-A} x caller params+json present or not x bearer_token argument; the request "
+        "x transport defaults {none, X-A, x-a} x per-request headers {none, X-A} x caller params+json present or not x bearer_token argument; THREE requests are sent "
+        "on each transport (given headers; other headers; no headers) so that state kept by the transport or a plugin between requests is observed; each request "
         "that leaves the real HttpxTransport (captured by httpx.MockTransport) is compared with a reference model of the documented pipeline. "
         "non-trivial = distinct configurations with at least one plugin or header source")
 ASSUMPTIONS = [
@@ -60,7 +61,7 @@ def make_plugin(name, plugins_mod):
     raise HarnessError(name)
 
 
-def reference(seq, defaults, req_headers, bearer_token):
+def reference(seq, defaults, req_headers, bearer_token, k=0):
     """expected headers (exact names, last writer wins), query additions, cookies"""
     h = {}
     h.update(defaults)
@@ -85,7 +86,7 @@ def reference(seq, defaults, req_headers, bearer_token):
             elif p == "oauth":
                 h["Authorization"] = "Bearer oa"
             elif p == "oauth-refresh":
-                h["Authorization"] = "Bearer new-old"
+                h["Authorization"] = "Bearer " + "new-" * (k + 1) + "old"  # the callback is handed the current token every time
     elif bearer_token:
         h["Authorization"] = f"Bearer {bearer_token}"
     return h, q, c
@@ -139,77 +140,83 @@ def run_case(case):
                                 else:
                                     auth = abase.CompositeAuth(*[make_plugin(p, aplug) for p in seq])
                                 tr = ht.HttpxTransport("http://h.test", auth=auth, bearer_token=bt, default_headers=dict(defaults) or None)
-                                kwargs = {}
-                                if req_headers:
-                                    kwargs["headers"] = dict(req_headers)
-                                if caller:
-                                    kwargs["params"] = {"q": "1"}
-                                    kwargs["json"] = {"a": 1}
-                                captured.clear()
-                                n += 1
-                                if seq or defaults or req_headers or bt:
-                                    nontriv.append(label)
+                                plans = [("r1", dict(req_headers)), ("r2", {"X-B": "r2"}), ("r3", {})]
+                                for k, (rname, rh) in enumerate(plans):
+                                    kwargs = {}
+                                    if rh:
+                                        kwargs["headers"] = dict(rh)
+                                    if caller:
+                                        kwargs["params"] = {"q": "1"}
+                                        kwargs["json"] = {"a": 1}
+                                    captured.clear()
+                                    n += 1
+                                    lab = f"{label}|{rname}"
+                                    if seq or defaults or rh or bt:
+                                        nontriv.append(lab)
 
-                                def add(clause, disc, detail, label=label):
-                                    sig = f"C17|{clause}|{disc}"
-                                    if (sig, label) not in seen:
-                                        seen.add((sig, label))
-                                        found.append({"sig": sig, "key": label, "msg": f"{detail} | {label}"})
+                                    def add(clause, disc, detail, lab=lab, rname=rname):
+                                        sig = f"C17|{clause}|{disc}" + ("" if rname == "r1" else " (later request on the same transport)")
+                                        if (sig, lab) not in seen:
+                                            seen.add((sig, lab))
+                                            found.append({"sig": sig, "key": lab, "msg": f"{detail} | {lab}"})
 
-                                try:
-                                    loop.run_until_complete(tr.request("POST", "/x", **kwargs))
-                                except Exception as e:
-                                    add("request", f"transport raised {type(e).__name__}", str(e)[:200])
-                                    continue
-                                finally:
                                     try:
-                                        loop.run_until_complete(tr.close())
-                                    except Exception:
-                                        pass
-                                if len(captured) != 1:
-                                    add("request", f"{len(captured)} requests left the transport", "")
-                                    continue
-                                r = captured[0]
-                                eh, eq, ec = reference(seq, defaults, req_headers, bt)
-                                sent = {}
-                                for k, v in r.headers.multi_items():
-                                    sent.setdefault(k.lower(), []).append(v)
-                                for name, val in eh.items():
-                                    vals = sent.get(name.lower(), [])
-                                    flat = [x.strip() for v in vals for x in v.split(",")]
-                                    variants = [k for k in eh if k.lower() == name.lower()]
-                                    top = [k for k in eh if k.lower() == name.lower()][-1]
-                                    # the value written last among the case variants has the highest precedence
-                                    if name != top:
+                                        loop.run_until_complete(tr.request("POST", "/x", **kwargs))
+                                    except Exception as e:
+                                        add("request", f"transport raised {type(e).__name__}", str(e)[:200])
                                         continue
-                                    if val not in vals and val not in flat:
-                                        src = "auth plugin" if (name.lower() in ("authorization", "x-api-key", "x-extra") or (name == "x-a" and "hdr-case" in seq)) else \
-                                            ("per-request header" if name in req_headers else "default header")
-                                        add("header", f"{src} value not on the wire ({'case-variant names' if len(variants) > 1 else 'single name'})",
-                                            f"{name}: expected {val!r}, sent {vals}")
-                                    elif len(variants) == 1 and vals != [val]:
-                                        add("header", "header sent with more than the expected value", f"{name}: {vals} expected [{val!r}]")
-                                qs = dict(r.url.params.multi_items())
-                                for k, v in eq.items():
-                                    if qs.get(k) != v:
-                                        add("api-key", "query-located API key not in the request URL", f"{k} expected {v!r}; query={qs}")
-                                cookie = sent.get("cookie", [""])[0]
-                                for k, v in ec.items():
-                                    if f"{k}={v}" not in cookie:
-                                        add("api-key", "cookie-located API key not in the Cookie header", f"{k} expected {v!r}; cookie={cookie!r}")
-                                if caller:
-                                    if qs.get("q") != "1":
-                                        add("passthrough", "caller's query parameters changed", f"query={qs}")
-                                    try:
-                                        body = json.loads(r.content)
-                                    except Exception:
-                                        body = None
-                                    if body != {"a": 1}:
-                                        add("passthrough", "caller's JSON body changed", f"body={r.content[:80]!r}")
-                                else:
-                                    extra = {k: v for k, v in qs.items() if k not in eq}
-                                    if extra:
-                                        add("passthrough", "query parameters appear that nobody supplied", f"{extra}")
+                                    if len(captured) != 1:
+                                        add("request", f"{len(captured)} requests left the transport", "")
+                                        continue
+                                    r = captured[0]
+                                    eh, eq, ec = reference(seq, defaults, rh, bt, k)
+                                    sent = {}
+                                    for hk, hv in r.headers.multi_items():
+                                        sent.setdefault(hk.lower(), []).append(hv)
+                                    for name, val in eh.items():
+                                        vals = sent.get(name.lower(), [])
+                                        flat = [x.strip() for v in vals for x in v.split(",")]
+                                        variants = [hk for hk in eh if hk.lower() == name.lower()]
+                                        top = variants[-1]
+                                        # the value written last among the case variants has the highest precedence
+                                        if name != top:
+                                            continue
+                                        if val not in vals and val not in flat:
+                                            src = "auth plugin" if (name.lower() in ("authorization", "x-api-key", "x-extra") or (name == "x-a" and "hdr-case" in seq)) else \
+                                                ("per-request header" if name in rh else "default header")
+                                            add("header", f"{src} value not on the wire ({'case-variant names' if len(variants) > 1 else 'single name'})",
+                                                f"{name}: expected {val!r}, sent {vals}")
+                                        elif len(variants) == 1 and vals != [val]:
+                                            add("header", "header sent with more than the expected value", f"{name}: {vals} expected [{val!r}]")
+                                    # nothing from an earlier request may linger
+                                    for hname in ("x-a", "x-b"):
+                                        if hname in sent and not any(hk.lower() == hname for hk in eh):
+                                            add("header", "a header nobody supplied for this request is on the wire", f"{hname}: {sent[hname]}")
+                                    qs = dict(r.url.params.multi_items())
+                                    for qk, qv in eq.items():
+                                        if qs.get(qk) != qv:
+                                            add("api-key", "query-located API key not in the request URL", f"{qk} expected {qv!r}; query={qs}")
+                                    cookie = sent.get("cookie", [""])[0]
+                                    for ck, cv in ec.items():
+                                        if f"{ck}={cv}" not in cookie:
+                                            add("api-key", "cookie-located API key not in the Cookie header", f"{ck} expected {cv!r}; cookie={cookie!r}")
+                                    if caller:
+                                        if qs.get("q") != "1":
+                                            add("passthrough", "caller's query parameters changed", f"query={qs}")
+                                        try:
+                                            body = json.loads(r.content)
+                                        except Exception:
+                                            body = None
+                                        if body != {"a": 1}:
+                                            add("passthrough", "caller's JSON body changed", f"body={r.content[:80]!r}")
+                                    else:
+                                        extra = {qk: qv for qk, qv in qs.items() if qk not in eq}
+                                        if extra:
+                                            add("passthrough", "query parameters appear that nobody supplied", f"{extra}")
+                                try:
+                                    loop.run_until_complete(tr.close())
+                                except Exception:
+                                    pass
     finally:
         httpx.AsyncClient = real
     return {"findings": found, "evals": n, "nontrivial": nontriv, "nontrivial_multi": True,
